@@ -101,8 +101,15 @@ func c09Run(c *ev.Ctx, cs ev.Case, a c09Anim, stat *c09Stats) {
 		// canonical non-premultiplied reading (color.NRGBAModel of At), which is what the model composites.
 		if cs.Idx%4 == 2 {
 			tr := rand.New(rand.NewSource(int64(cs.Idx)*1315423911 + int64(i)))
-			typ := []string{"RGBA", "RGBA", "NRGBA64", "RGBA64", "Paletted", "Wrapper"}[(cs.Idx/4+i)%6]
-			frameImg = img.AsType(tr, m, typ)
+			typ := []string{"RGBA", "RGBA", "NRGBA64", "RGBA64", "Paletted", "Wrapper", "NRGBA-shifted", "NRGBA-subimage"}[(cs.Idx/4+i)%8]
+			switch typ {
+			case "NRGBA-shifted": // same pixels, bounds away from the origin
+				frameImg = img.Shift(m, 1+tr.Intn(9), -1-tr.Intn(9))
+			case "NRGBA-subimage": // a view into a larger picture (non-zero origin, larger stride)
+				frameImg = img.Place(tr, m, "subimage", 0x5a)
+			default:
+				frameImg = img.AsType(tr, m, typ)
+			}
 			framePix = img.Tight(img.ToNRGBA(frameImg))
 		}
 		bl, dp := animation.BlendNone, animation.DisposeNone
